@@ -146,10 +146,10 @@ class Exec:
         orig = qh.QueryHandler.handle_assembled_query
         ex = self
 
-        def observed(self_, packets, addr, port, transport, v6_flow_scope):
+        def observed(self_, packets, addr, port, transport, v6_flow_scope, *rest):
             w.gseq += 1
             ex.assemblies.append({'g': w.gseq, 't': w.now_ms, 'datas': [p_.data for p_ in packets], 'now_last': packets[-1].now})
-            return orig(self_, packets, addr, port, transport, v6_flow_scope)
+            return orig(self_, packets, addr, port, transport, v6_flow_scope, *rest)
 
         w._patch(qh.QueryHandler, 'handle_assembled_query', observed)
         # ---- pre-population, timed so that ages straddle half TTL at the asking instants --------------
